@@ -88,11 +88,18 @@ class C05(Prop):
         ([(5, 0, 0, 0), (5, 0, 0, 0)], [], [["xfer 0 1 3 atp"], ["xfer 1 0 4 atp"]]),
         ([(5, 0, 0, 0), (5, 0, 0, 0)], [(0, 1), (1, 1)], [["xfer 0 1 1 atp", "xfer 0 1 1 atp"], ["xfer 1 0 2 atp"], ["consume 0 1 atp 0 0"]]),
         ([(8, 2, 0, 3)], [], [["consume 0 2 gtp 0 0", "consume 0 9 atp 1 5"], ["consume 0 2 gtp 0 0"], ["regen 0 2 gtp"]]),
+        # raising on_state_change observers (called inside the lock region; the call raises after its mutations)
+        ([(100, 0, 0, 0)], [], [["consume 0 75 atp 0 0", "consume 0 15 atp 0 0"], ["consume 0 15 atp 0 0"]], [(0, "state", "conserving")]),
+        ([(20, 0, 0, 0)], [], [["consume 0 15 atp 0 0", "regen 0 15 atp"], ["consume 0 4 atp 0 5", "regen 0 3 atp"]], [(0, "always", "x")]),
+        ([(10, 0, 0, 0), (10, 0, 0, 0)], [(1, 2)], [["xfer 0 1 8 atp"], ["consume 1 2 atp 0 5", "consume 0 2 atp 0 0"]], [(1, "always", "x")]),
     ]
 
-    def _lines(self, stores, setatp, threads, sched):
+    def _lines(self, stores, setatp, threads, *rest):
+        sched = rest[-1]
+        observers = rest[0] if len(rest) > 1 else []
         lines = [f"new {b} {g} {n} {md}" for (b, g, n, md) in stores]
         lines += [f"setatp {j} {v}" for (j, v) in setatp]
+        lines += [f"obs {j} {kind} {nm}" for (j, kind, nm) in observers]
         lines += [f"thread {t} " + " ; ".join(calls) for t, calls in enumerate(threads)]
         lines.append(sched)
         return lines
@@ -120,6 +127,10 @@ class C05(Prop):
                     k = rng.randrange(ns)
                     calls.append(f"xfer {j} {k} {rng.choice([1, 2, 5])} {rng.choice(['atp', 'atp', 'gtp'])}")
             threads.append(calls)
+        if rng.random() < 0.25:
+            j = rng.randrange(ns)
+            obs = [(j, rng.choice(["always", "state", "state"]), rng.choice(["conserving", "starving", "normal", "feasting"]))]
+            return stores, setatp, threads, obs
         return stores, setatp, threads
 
     def generate(self, rng, tier, n):
@@ -141,7 +152,7 @@ class C05(Prop):
         # every schedule with at most two context switches (thread 0 runs i lines, thread 1 runs j lines, then whoever
         # is left), for two-thread programs — complete for that schedule class
         cases = []
-        progs = [p for p in self.PROGRAMS if len(p[2]) == 2]
+        progs = [p for p in self.PROGRAMS if len(p[2]) == 2 and len(p) == 3]
         rng_n = 26 if tier == "quick" else 70
         if tier == "quick":
             progs = progs[:2]
@@ -156,11 +167,23 @@ class C05(Prop):
     def _snap(self, s):
         return f"{s.atp} {s.gtp} {s.nadh} {s._debt} {s._total_consumed} {s._state.value}"
 
-    def _mk_stores(self, specs, setatp):
+    def _mk_stores(self, specs, setatp, observers=None):
         M = self.M
         st = []
-        for (b, g, n, md) in specs:
-            st.append(M.ATP_Store(b, gtp_budget=g, nadh_reserve=n, max_debt=md, silent=True))
+        observers = self._observers if observers is None else observers
+
+        class ObserverFault(Exception):
+            pass
+
+        def mk_obs(kind, nm):
+            def cb(state):
+                if kind == "always" or state.value == nm:
+                    raise ObserverFault()
+            return cb
+        for j, (b, g, n, md) in enumerate(specs):
+            o = next((x for x in observers if x[0] == j), None)
+            st.append(M.ATP_Store(b, gtp_budget=g, nadh_reserve=n, max_debt=md, silent=True,
+                                  on_state_change=None if o is None else mk_obs(o[1], o[2])))
         for j, v in setatp:
             st[j].atp = v
         return st
@@ -179,6 +202,17 @@ class C05(Prop):
             return stores[int(t[1])].transfer_to(stores[int(t[2])], int(t[3]), E[t[4]])
         raise ValueError(call)
 
+    def _call(self, stores, call):
+        """one API call; an exception (a raising observer) is the call's outcome"""
+        try:
+            return self._do(stores, call)
+        except SystemExit:
+            raise
+        except Exception as e:
+            if type(e).__name__ == "SeqDeadlock":
+                raise
+            return "raise" if type(e).__name__ == "ObserverFault" else f"raise:{type(e).__name__}"
+
     @staticmethod
     def _show_ret(r):
         if r is True:
@@ -191,9 +225,12 @@ class C05(Prop):
 
     def _parse(self, lines):
         specs, setatp, threads, sched = [], [], {}, None
+        self._observers = []
         for l in lines:
             t = l.split()
-            if t[0] == "new":
+            if t[0] == "obs" and len(t) == 4:
+                self._observers = [o for o in self._observers if o[0] != int(t[1])] + [(int(t[1]), t[2], t[3])]
+            elif t[0] == "new":
                 specs.append(tuple(int(x) for x in t[1:5]))
             elif t[0] == "setatp":
                 setatp.append((int(t[1]), int(t[2])))
@@ -210,7 +247,7 @@ class C05(Prop):
         nt = len(threads)
         if sched is None or not specs or not threads:
             case["lines"] = base
-            return ["ok" if l.split()[0] in ("new", "setatp", "thread", "sched", "sched2") else "bad-op" for l in base], None
+            return ["ok" if l.split()[0] in ("new", "setatp", "thread", "sched", "sched2", "obs") else "bad-op" for l in base], None
         if sched[0] == "sched":
             vec = burst_schedule(random.Random(int(sched[1])), nt, 600)
         else:
@@ -286,7 +323,7 @@ class C05(Prop):
             def mk(t):
                 def body():
                     for i, c in enumerate(threads[t]):
-                        rets[t][i] = self._do(stores, c)
+                        rets[t][i] = self._call(stores, c)
                 return body
             finished = s.run([mk(t) for t in range(nt)], join_timeout=4)
             raised = [r[1] for r in (s.results or []) if r and r[0] == "raise"]
@@ -336,7 +373,7 @@ class C05(Prop):
                 per_thread_pos[t] = [ci + 1, 0]
             acts.append((t, a, snap))
         lines = list(base)
-        obs = ["ok" if l.split()[0] in ("thread", "sched", "sched2", "setatp") else None for l in base]
+        obs = ["ok" if l.split()[0] in ("thread", "sched", "sched2", "setatp", "obs") else None for l in base]
         k = 0
         for i, l in enumerate(base):
             if l.startswith("new "):
@@ -362,7 +399,7 @@ class C05(Prop):
 
     # --- oracle ------------------------------------------------------------------------------------------------
     def _sequential_outcomes(self, specs, setatp, threads):
-        key = (tuple(specs), tuple(setatp), tuple(tuple(t) for t in threads))
+        key = (tuple(specs), tuple(setatp), tuple(tuple(t) for t in threads), tuple(self._observers))
         if key in self.seq_cache:
             return self.seq_cache[key]
         outs = set()
@@ -370,19 +407,59 @@ class C05(Prop):
         lens = [len(t) for t in threads]
         tags = [t for t in range(nt) for _ in range(lens[t])]
         seen = set()
-        for order in set(itertools.permutations(tags)):
-            if order in seen:
-                continue
-            seen.add(order)
-            stores = self._mk_stores(specs, setatp)
-            idx = [0] * nt
-            rets = [[None] * lens[t] for t in range(nt)]
-            for t in order:
-                rets[t][idx[t]] = self._do(stores, threads[t][idx[t]])
-                idx[t] += 1
-            outs.add((tuple(tuple(r) for r in rets), tuple(self._snap(st) for st in stores)))
-            if len(seen) > 3000:
-                break
+        class SeqDeadlock(Exception):
+            pass
+
+        class SeqLock:
+            """lock for the single-threaded reference runs: a holder that re-acquires a non-reentrant lock would hang
+            forever in the real code; here it raises instead, so the reference itself can never hang"""
+            def __init__(self2, reentrant):
+                self2.reentrant, self2.count = reentrant, 0
+
+            def acquire(self2, blocking=True, timeout=-1):
+                if self2.count and not self2.reentrant:
+                    if not blocking:
+                        return False
+                    raise SeqDeadlock()
+                self2.count += 1
+                return True
+
+            def release(self2):
+                if self2.count == 0:
+                    raise RuntimeError("release unlocked lock")
+                self2.count -= 1
+
+            def locked(self2):
+                return self2.count > 0
+            __enter__ = lambda self2: self2.acquire() and self2
+            __exit__ = lambda self2, *a: self2.release()
+
+        class SeqThreading:
+            def __getattr__(self2, k):
+                return getattr(threading, k)
+            Lock = staticmethod(lambda: SeqLock(False))
+            RLock = staticmethod(lambda: SeqLock(True))
+        real_threading = self.M.threading
+        self.M.threading = SeqThreading()
+        try:
+            for order in set(itertools.permutations(tags)):
+                if order in seen:
+                    continue
+                seen.add(order)
+                stores = self._mk_stores(specs, setatp)
+                idx = [0] * nt
+                rets = [[None] * lens[t] for t in range(nt)]
+                try:
+                    for t in order:
+                        rets[t][idx[t]] = self._call(stores, threads[t][idx[t]])
+                        idx[t] += 1
+                except SeqDeadlock:
+                    continue          # this sequential order hangs in the real code: not an acceptable outcome
+                outs.add((tuple(tuple(r) for r in rets), tuple(self._snap(st) for st in stores)))
+                if len(seen) > 3000:
+                    break
+        finally:
+            self.M.threading = real_threading
         self.seq_cache[key] = outs
         return outs
 
